@@ -23,6 +23,24 @@ class Verdict:
     obj: float = 0.0
     meta: dict = field(default_factory=dict)
     terms: float = 0.0  # sum of |terms| entering the objective (for relative tolerance)
+    slacks: list = field(default_factory=list)  # every evaluated continuous constraint: (name, slack)
+
+    def add(self, name, slack):
+        """Record a continuous constraint; slack < 0 is a violation."""
+        self.slacks.append((name, slack))
+        if slack < 0:
+            self.viol.append((name, slack))
+
+    def robust_class(self, tau, exact=()):
+        """'feasible' (every margin >= tau, no discrete violation), 'infeasible' (a discrete violation or a
+        margin <= -10 tau), else 'dont_care'.  Constraints named in `exact` are judged with tau = 0."""
+        if any(s == NEG for _, s in self.viol):
+            return "infeasible"
+        if any(s < 0 if c in exact else s <= -10 * tau for c, s in self.slacks):
+            return "infeasible"
+        if all(s >= 0 if c in exact else s >= tau for c, s in self.slacks):
+            return "feasible"
+        return "dont_care"
 
     def bad(self, tau=0.0):
         """Constraints violated beyond tolerance tau."""
@@ -124,8 +142,7 @@ def judge_cvrp(inst, actions, cfg=None):
     routes = split_routes(actions)
     loads = [sum(inst["demand"][a - 1] for a in r if 1 <= a < n) for r in routes]
     for ld in loads:
-        if ld > cap:
-            v.viol.append(("capacity", cap - ld))
+        v.add("capacity", cap - ld)
     L = _closed_length(nodes, [a for a in actions if 0 <= a < n])
     v.obj, v.terms = -L, L
     v.meta = {"routes": [r for r in routes if r], "loads": loads, "cap": cap}
@@ -144,8 +161,7 @@ def judge_cvrptw(inst, actions, cfg=None):
             continue
         arr = t + dist(nodes[cur], nodes[a])
         slack = tw[a][1] - arr
-        if slack < 0:
-            v.viol.append(("time_window", slack))
+        v.add("time_window", slack)
         tight.append(slack)
         if a == 0:
             t = 0.0
@@ -154,8 +170,7 @@ def judge_cvrptw(inst, actions, cfg=None):
         cur = a
     if cur != 0:  # must be able to get back before the depot closes
         arr = t + dist(nodes[cur], nodes[0])
-        if tw[0][1] - arr < 0:
-            v.viol.append(("depot_deadline", tw[0][1] - arr))
+        v.add("depot_deadline", tw[0][1] - arr)
     v.meta["tw_slacks"] = tight
     return v
 
@@ -183,11 +198,10 @@ def judge_sdvrp(inst, actions, cfg=None):
                 splits += 1
         rem[a] -= d
         used += d
-        if used > cap:
-            v.viol.append(("capacity", cap - used))
+        v.add("capacity", cap - used)
     left = sum(rem)
-    if left > 0:
-        v.viol.append(("unserved_demand", -left))
+    if left > 1e-9:
+        v.add("unserved_demand", -left)
     L = _closed_length(nodes, [a for a in actions if 0 <= a < n])
     v.obj, v.terms = -L, L
     v.meta = {"routes": [r for r in split_routes(actions) if r], "splits": splits}
@@ -219,9 +233,7 @@ def judge_svrp(inst, actions, cfg=None):
         if a == 0:
             tech += 1
         else:
-            s = techs[tech] - skills[a - 1]
-            if s < 0:
-                v.viol.append(("skill", s))
+            v.add("skill", techs[tech] - skills[a - 1])
         cur = a
     if cur != 0 and tech < T:
         d = dist(nodes[cur], nodes[0])
@@ -254,8 +266,7 @@ def judge_op(inst, actions, cfg=None):
     custs = [a for a in actions if 1 <= a < n]
     L = _closed_length(nodes, custs)
     slack = inst["max_length"] - L
-    if slack < 0:
-        v.viol.append(("max_length", slack))
+    v.add("max_length", slack)
     prize = sum(inst["prize"][a - 1] for a in custs)
     v.obj, v.terms = prize, prize
     v.meta = {"length": L, "length_slack": slack, "visited": len(custs)}
@@ -279,9 +290,7 @@ def judge_pctsp(inst, actions, cfg=None):
     real = inst["stochastic_prize"] if (cfg or {}).get("stochastic") else inst["deterministic_prize"]
     prize = sum(real[a - 1] for a in set(custs))
     if len(set(custs)) < n - 1:
-        slack = prize - 1.0
-        if slack < 0:
-            v.viol.append(("min_prize", slack))
+        v.add("min_prize", prize - 1.0)
     L = _closed_length(nodes, custs)
     pen = sum(inst["penalty"][j - 1] for j in range(1, n) if j not in set(custs))
     v.obj, v.terms = -(L + pen), L + pen
@@ -356,10 +365,8 @@ def judge_mtvrp(inst, actions, cfg=None):
             continue
         l_load = sum(lh[a] for a in r)
         b_load = sum(bh[a] for a in r)
-        if l_load > Q:
-            v.viol.append(("capacity_linehaul", Q - l_load))
-        if b_load > Q:
-            v.viol.append(("capacity_backhaul", Q - b_load))
+        v.add("capacity_linehaul", Q - l_load)
+        v.add("capacity_backhaul", Q - b_load)
         seen_back = False
         for a in r:
             if bh[a] > 0:
@@ -372,19 +379,19 @@ def judge_mtvrp(inst, actions, cfg=None):
             d = dist(locs[cur], locs[a])
             length += d
             arr = t + d / speed
-            if tw[a][1] - arr < 0:
-                v.viol.append(("time_window", tw[a][1] - arr))
+            if tw[a][1] < 1e29:
+                v.add("time_window", tw[a][1] - arr)
             tw_slacks.append(tw[a][1] - arr)
             t = max(arr, tw[a][0]) + st[a]
             cur = a
         back = dist(locs[cur], locs[0])
         if not open_route:
             length += back
-            if tw[0][1] - (t + back / speed) < 0:
-                v.viol.append(("depot_deadline", tw[0][1] - (t + back / speed)))
+            if tw[0][1] < 1e29:
+                v.add("depot_deadline", tw[0][1] - (t + back / speed))
             tw_slacks.append(tw[0][1] - (t + back / speed))
-        if limit - length < 0:
-            v.viol.append(("distance_limit", limit - length))
+        if limit < 1e29:
+            v.add("distance_limit", limit - length)
         len_slacks.append(limit - length)
         total += length
     v.obj, v.terms = -total, total
